@@ -102,11 +102,14 @@ ResponseOk == \A c \in Cases : LET r == SelectBest(c.mine, c.sa) IN
                    /\ IsSubset(r, c.sa[k])
                    /\ \A bad \in Tamper(r, c.sa[k]) : (RangeOf(bad.transforms) \subseteq RangeOf(c.sa[k].transforms) /\ NoRep(bad.transforms)) \/ ~IsSubset(bad, c.sa[k])
 ASSUME ResponseOk
-ASSUME \A m \in IkeLocal : \A g \in {19, 20, 21, 14} : RetryGroupOk(m, g) <=> (g \in {m.transforms[i].id : i \in {j \in 1..Len(m.transforms) : m.transforms[j].type = DH}})
+ASSUME \A m \in IkeLocal : \A g \in 0..31 : RetryGroupOk(m, g) <=> (g \in {m.transforms[i].id : i \in {j \in 1..Len(m.transforms) : m.transforms[j].type = DH}})
 
 Vectors == [select |-> {[mine |-> c.mine, sa |-> c.sa, out |-> SelectBest(c.mine, c.sa),
                          inter |-> [k \in 1..Len(c.sa) |-> Intersection(c.mine, c.sa[k])]] : c \in Cases},
             subset |-> {[p |-> p, offer |-> o, out |-> IsSubset(p, o)] : p \in {x \in IkePeer : Len(x.transforms) <= 5}, o \in {y \in IkeLocal : Len(y.transforms) >= 6}},
+            \* INVALID_KE_PAYLOAD: a suggestion is followed iff it is one of the DH transforms of the offer - the numbers of other transform types
+            \* (integrity 14 = HMAC-SHA2-512 is also the number of MODP-2048, 12, 5, 2, 0 ...) do not count
+            retry |-> {[offer |-> m, g |-> g, ok |-> RetryGroupOk(m, g)] : m \in {x \in IkeLocal : Len(x.transforms) \in {4, 7}}, g \in 0..31},
             ke |-> {[chosen |-> SelectBest(c.mine, c.sa), group |-> g, out |-> KeRule(SelectBest(c.mine, c.sa), g)] :
                       c \in {x \in Cases : x.mine.proto = 1 /\ Len(x.sa) = 1 /\ SelectBest(x.mine, x.sa) # None /\ Len(x.mine.transforms) <= 5}, g \in {19, 20, 21}}]
 ASSUME OutFile = "" \/ JsonSerialize(OutFile, Vectors)
